@@ -35,6 +35,7 @@ from pbt.core import (  # noqa: E402
     case_hash,
     innermost_frame,
     innermost_repo_frame,
+    via_dependency_path,
 )
 
 MAX_SAMPLES = 3
@@ -128,7 +129,7 @@ def evaluate_case(sub, case, stats: Stats):
         frame = innermost_repo_frame(e.__traceback__)
         if frame is not None:
             ctx.violations.append(
-                Violation(sub.name, "escaped", "exception", f"{ctx.cls}|{type(e).__name__}@{frame}",
+                Violation(sub.name, "escaped", "exception", f"{ctx.cls}|{type(e).__name__}@{frame}{via_dependency_path(e.__traceback__)}",
                           f"{type(e).__name__}: {str(e)[:400]}")
             )
         else:
